@@ -10,7 +10,9 @@ RULE = ("every directed mixed graph CYC(n) (any subset of the n(n-1) directed an
         "with the bidirected layer absent; every small graph, a quarter of the n=4 samples and half of the random ones again as "
         "REPEAT case (object built and queried for a neighbour graph with one edge reversed/moved, edited in place, judged; the "
         "returned graph is edited and the call repeated, also on G.copy(); frozenset arguments) and a CUSTOM edge-type names stream "
-        "for acyclification (beyond the property's quantifier); distinct by (canonical graph, layers, repeat, names); non-trivial = the graph has a directed cycle "
+        "for acyclification (beyond the property's quantifier); the empty graph; every n<=2 and a third of the n=3 graphs and a third of the random ones also as pywhy_graphs.ADMG "
+        "instance / three-layer MixedEdgeGraph with an edge-less undirected layer; query sets checked for mutation; "
+        "distinct by (canonical graph, layers, repeat, names, object kind); non-trivial = the graph has a directed cycle "
         "and the queries contain a sigma-separated and a sigma-connected one")
 EXHAUSTIVE = {"quick": "all CYC(n) n<=3, all disjoint X,Y,Z (n=4: 1200 sampled)", "thorough": "all CYC(n) n<=3, all disjoint X,Y,Z (n=4: 50000 sampled)"}
 TRUSTED = ["networkx strongly_connected_components / complete_graph and their yield order taken at face value",
@@ -142,6 +144,17 @@ def gen_cases(tier, rng):
                     yield {"kind": "names%d" % n, "g": g, "layers": ["directed", "bidirected"], "qs": [], "oracle": True,
                            "names": NAME_SETS[(code // 4) % len(NAME_SETS)],
                            **({"rep": rng.randrange(1 << 30)} if code % 8 == 0 else {})}
+    # BOUNDARY: the empty graph;  OBJECT KINDS: ADMG instance / three-layer MixedEdgeGraph with an edge-less third layer
+    for ok in ("mixed", "admg", "mixed3"):
+        yield {"kind": "cyc0", "g": gr.G([]), "layers": ["directed", "bidirected"], "qs": [], "oracle": True, "okind": ok}
+    for n in range(1, 4):
+        for code in range(n_codes(n)):
+            if n == 3 and code % 3:
+                continue
+            g = cyc_from_code(n, code)
+            yield {"kind": "kinds%d" % n, "g": g, "layers": ["directed", "bidirected"], "qs": queries(g["V"]), "oracle": True,
+                   "okind": ("admg", "mixed3")[code % 2],
+                   **({"rep": rng.randrange(1 << 30)} if code % 4 == 0 and (g["D"] or g["B"]) else {})}
     # the design's witness and its bidirected sibling, always
     for g in (gr.G(range(4), D=[[0, 1], [1, 0], [1, 2], [2, 3], [3, 2]]),
               gr.G(range(4), D=[[0, 1], [1, 0], [2, 3], [3, 2]], B=[[1, 2]])):
@@ -167,6 +180,8 @@ def gen_cases(tier, rng):
             c.update(kind=c["kind"] + "-rep", rep=rng.randrange(1 << 30))
         elif i % 8 == 1:
             c.update(kind=c["kind"] + "-names", names=rng.choice(NAME_SETS), qs=[])
+        if "names" not in c and layers == ["directed", "bidirected"] and i % 3 == 0:
+            c.update(okind=("admg", "mixed3")[(i // 3) % 2])
         yield c
 
 
@@ -186,6 +201,13 @@ def decode(case, v):
 def build(g, case):
     """MixedEdgeGraph for g with exactly case["layers"]; custom layer names from case["names"] = [directed, bidirected]"""
     names = case.get("names")
+    okind = case.get("okind", "mixed")
+    if okind == "admg":                      # a pywhy_graphs.ADMG instance (directed, bidirected and an empty undirected layer)
+        M, lab, inv = gr.to_admg(g, case)
+        return M, lab, inv, "directed", "bidirected"
+    if okind == "mixed3":                    # three-layer MixedEdgeGraph, third layer edge-less
+        M, lab, inv = gr.to_mixed(g, case, layers=("directed", "bidirected", "undirected"))
+        return M, lab, inv, "directed", "bidirected"
     if not names:
         M, lab, inv = gr.to_mixed(g, case, layers=tuple(case["layers"]))
         return M, lab, inv, "directed", "bidirected"
@@ -232,11 +254,14 @@ def run_impl(case):
     def sigma(Mx):
         res = []
         for X, Y, Z in case["qs"]:
+            X, Y, Z = (mkset(lab(v) for v in S) for S in (X, Y, Z))
+            keep = (set(X), set(Y), set(Z))
             try:
-                res.append(int(bool(sigma_separated(Mx, mkset(lab(v) for v in X), mkset(lab(v) for v in Y),
-                                                    mkset(lab(v) for v in Z)))))
+                res.append(int(bool(sigma_separated(Mx, X, Y, Z))))
             except Exception as e:  # noqa
                 res.append("exc:" + type(e).__name__)
+            if (set(X), set(Y), set(Z)) != keep:
+                res[-1] = "query-sets-mutated"
         return res
 
     if rep is None:
@@ -300,7 +325,8 @@ def nontrivial(case, model):
 
 
 def key(case):
-    return (gr.canon(case["g"]), tuple(case["layers"]), case.get("rep") is not None, tuple(case.get("names") or ()))
+    return (gr.canon(case["g"]), tuple(case["layers"]), case.get("rep") is not None, tuple(case.get("names") or ()),
+            case.get("okind", "mixed"))
 
 
 def shrink(case):
